@@ -32,6 +32,7 @@ import (
 //	        forwarder)
 //	rblock  start a goroutine doing one blocking receive (timeout N ms) on the channel of the
 //	        never-reading subscriber H
+//	rjoin   wait (up to N ms) until every blocking receive started so far has finished and logged
 type Step struct {
 	Op    string `json:"op"`
 	H     int    `json:"h,omitempty"`
@@ -121,6 +122,7 @@ type world struct {
 	cancels  []context.CancelFunc
 	parkMu   sync.Mutex
 	park     map[uint64]chan struct{}
+	rwg      sync.WaitGroup // blocking receives in flight
 }
 
 // Outcome of executing a scenario against the real code.
@@ -446,8 +448,10 @@ func Execute(sc Scenario, deadline time.Duration) Outcome {
 				lo := len(w.trace)
 				w.mu.Unlock()
 				w.wg.Add(1)
+				w.rwg.Add(1)
 				go func() {
 					defer w.wg.Done()
+					defer w.rwg.Done()
 					select {
 					case v := <-s.ch:
 						w.mu.Lock()
@@ -458,6 +462,13 @@ func Execute(sc Scenario, deadline time.Duration) Outcome {
 					}
 				}()
 				time.Sleep(time.Millisecond) // let it block in the receive
+			}
+		case "rjoin":
+			done := make(chan struct{})
+			go func() { w.rwg.Wait(); close(done) }()
+			select {
+			case <-done:
+			case <-time.After(time.Duration(st.N) * time.Millisecond):
 			}
 		case "settle":
 			time.Sleep(time.Duration(st.N) * time.Millisecond)
